@@ -61,6 +61,17 @@ def _branches(stmts: List[ast.stmt]) -> List[Tuple[ast.AST, List[ast.stmt]]]:
     return out
 
 
+def _branches_all(fnode: ast.AST) -> List[Tuple[Optional[ast.AST], List[ast.stmt]]]:
+    """Every (test, body) of every if/elif in the function, plus (None, else-body)."""
+    out: List[Tuple[Optional[ast.AST], List[ast.stmt]]] = []
+    for n in walk_local(fnode):
+        if isinstance(n, ast.If):
+            out.append((n.test, n.body))
+            if n.orelse and not (len(n.orelse) == 1 and isinstance(n.orelse[0], ast.If)):
+                out.append((None, n.orelse))
+    return out
+
+
 def check_eval(ctx) -> None:
     prog = ctx.prog
     fn = prog.func("cobra.core.gene", "GPR._eval_gpr")
